@@ -9,6 +9,7 @@ mod rng;
 mod world;
 mod world_ext;
 mod checks;
+mod codec;
 mod conc;
 mod crash;
 
